@@ -133,7 +133,10 @@ CHECKS = {
             "layer R): every edge is a legal promotion-free move in the position its path reaches from the standard "
             "start, no path exceeds the termination bound, children stay inside the table; the implementation's own walk (move_new on "
             "every edge, assertion-enabled build) must reach the same position text at every node, and every node's iterator "
-            "driven with nth / step_by / count / last must stay inside the node's own list. Complete (29k nodes).",
+            "driven with nth / step_by / count / last must stay inside the node's own list. Layer S (spec/BookSys.tla): the decoder "
+            "as implemented, over the raw 87,204-word table read through a hook - every cursor the iterator can reach is a state "
+            "(58k): reads stay inside the table, every step decreases the cursor (termination), and the decoded lists are the "
+            "exported lists (binding; drift if not). Complete (29k nodes).",
             "explicit TLA+ spec + TLC model checking; impl walk compared node by node", "5/C17",
             "Trusted: TLC; layer R; node identity = Debug text of BookMoves; unreachable table indices are out of scope."),
     "C18": ("model_checking",
